@@ -414,7 +414,7 @@ def __e_dyad_format2(a, b, backend):
     if hasattr(b, 'ndim') and b.ndim == 0:
         b = b.item()
     if safe_eq(int(a), 0):
-        return str(b)
+        return f":{b}" if isinstance(b, KGSym) else str(b)
     if (backend.is_float(b) and not isinstance(b,int)) and (backend.is_float(a) and not isinstance(a,int)):
         b = "{:Xf}".replace("X",str(a)).format(b)
         p = b.split('.')
